@@ -75,6 +75,8 @@ type pathQuery struct {
 	fn       *ssa.Function
 	isTarget func(b *ssa.BasicBlock) bool
 	avoid    func(b *ssa.BasicBlock) bool
+	// initBools: what is assumed about boolean values (parameters) at entry
+	initBools map[ssa.Value]bool
 	// result
 	witness []int // block indices of a path found
 }
@@ -112,6 +114,9 @@ func typeTest(v ssa.Value) (ssa.Value, types.Type, bool) {
 
 func (q *pathQuery) search() bool {
 	start := &pathState{blk: q.fn.Blocks[0], bools: map[ssa.Value]bool{}, typs: map[ssa.Value]*typeFact{}}
+	for v, b := range q.initBools {
+		start.bools[v] = b
+	}
 	seen := map[string]bool{}
 	type item struct {
 		s    *pathState
